@@ -121,9 +121,12 @@ def assert_(thunk, where, msg_thunk=None):
     v = thunk()
     t = truth(v)
     if isinstance(t, SB):
-        CTX.oblige("assert@" + where, t, kind="assert")
-        CTX.assume(t)
-        return
+        if CTX.notes.get("assert_forks"):
+            t = _b.bool(t)          # Python semantics: fork, the failing side raises
+        else:
+            CTX.oblige("assert@" + where, t, kind="assert")
+            CTX.assume(t)
+            return
     if not t:
         if msg_thunk is not None:
             raise AssertionError(msg_thunk())
@@ -271,7 +274,16 @@ class g_floatcls(metaclass=_FloatMeta):
         return _b.float(x)
 
 
+def g_isinstance(obj, cls):
+    from .bv import SI
+    if isinstance(obj, SI):
+        clss = cls if isinstance(cls, tuple) else (cls,)
+        return _b.int in clss
+    return isinstance(obj, cls)
+
+
 INJECTED = {
+    "isinstance": g_isinstance,
     "min": symnp.py_min,
     "max": symnp.py_max,
     "filter": g_filter,
@@ -281,7 +293,6 @@ INJECTED = {
     "bool": sym_bool,
     "all": g_all,
     "any": g_any,
-    "float": g_floatcls,
 }
 
 
